@@ -27,6 +27,14 @@ class SourceFileDoesNotExist(Exception):
         super().__init__(f"Source file {self.file} does not exist")
 
 
+class FileNameTooLong(Exception):
+    def __init__(self, file: Path):
+        self.file = file
+        super().__init__(
+            f"File name {self.file} does not fit into the 255 bytes of a CFDP LV field"
+        )
+
+
 class ChecksumNotImplemented(Exception):
     def __init__(self, checksum_type: ChecksumType):
         self.checksum_type = checksum_type
